@@ -304,6 +304,17 @@ fn run_file(cx: &mut Ctx, dir: &str, events: &[(u64, ModelEvent)], via_rt: bool)
     if !set.blocking_flush(Duration::from_secs(30)) {
         cx.r.inconclusive("emit_file did not flush within 30 s");
     }
+    // how many events the file set itself says it could not format
+    let format_failed: u64 = {
+        use emit::metric::Source as _;
+        let v = std::cell::Cell::new(0u64);
+        set.metric_source().sample_metrics(emit::metric::sampler::from_fn(|m| {
+            if m.name() == "event_format_failed" {
+                v.set(m.value().by_ref().cast::<u64>().or_else(|| m.value().by_ref().cast::<usize>().map(|x| x as u64)).unwrap_or(u64::MAX));
+            }
+        }));
+        v.get()
+    };
     drop(set);
     let mut files: Vec<_> = std::fs::read_dir(&sub).expect("read dir").filter_map(|e| e.ok()).map(|e| e.path()).collect();
     files.sort();
@@ -322,24 +333,64 @@ fn run_file(cx: &mut Ctx, dir: &str, events: &[(u64, ModelEvent)], via_rt: bool)
         }
         lines.extend(text.lines().map(|l| l.to_string()));
     }
-    if lines.len() != emitted.len() {
-        cx.r.violation(
-            "C13:file:line-count",
-            &format!("{} events were accepted without panic but {} lines were written", emitted.len(), lines.len()),
-            json!({"seed": cx.seed, "section": cx.section, "first_idx": events.first().map(|e| e.0)}),
-        );
-        // fall back to matching by vid
-        for (idx, me) in events {
-            let needle = format!("\"vid\":\"{}\"", me.vid);
-            if let Some(l) = lines.iter().find(|l| l.contains(&needle)) {
-                check_file_line(cx, me, *idx, l);
+    // which event does a line belong to: its `vid` (the event's own always wins), parsed or, for a
+    // line that does not parse, searched for textually
+    let vid_of_line = |l: &str| -> Option<String> {
+        if let Ok(t) = parse_json(l) {
+            return t.get("vid").and_then(|v| v.as_str()).map(|s| s.to_string());
+        }
+        let at = l.find("\"vid\":\"")? + 7;
+        l[at..].find('"').map(|e| l[at..at + e].to_string())
+    };
+    let line_vids: Vec<Option<String>> = lines.iter().map(|l| vid_of_line(l)).collect();
+    // lines come out in emission order: align them with the accepted events
+    let mut at = 0usize;
+    let mut dropped_compound = 0u64;
+    let mut dropped_other = 0u64;
+    for n in &emitted {
+        let (idx, me) = &events[*n];
+        let mine = match line_vids.get(at) {
+            Some(Some(v)) => v == &me.vid,
+            // an unidentifiable (truncated) line: attribute it to the next event in order
+            Some(None) => true,
+            None => false,
+        };
+        if mine {
+            check_file_line(cx, me, *idx, &lines[at]);
+            at += 1;
+            continue;
+        }
+        // no line for this event
+        match me.compound_key_shapes().first() {
+            Some(shape) => {
+                dropped_compound += 1;
+                cx.violation(
+                    me,
+                    *idx,
+                    &format!("C13:file:map-key:{}:event-dropped", shape),
+                    format!("emit_file wrote nothing for an event holding a map with {} keys (JSON cannot express them; the event fails as a whole)", shape),
+                );
+            }
+            None => {
+                dropped_other += 1;
+                cx.violation(me, *idx, if me.wild.is_some() { "C13:file:event-dropped:wild-extent" } else { "C13:file:event-dropped" }, "emit_file accepted the event without panic but wrote no line for it".into());
             }
         }
-        return;
     }
-    for (n, line) in emitted.iter().zip(&lines) {
-        let (idx, me) = &events[*n];
-        check_file_line(cx, me, *idx, line);
+    if at < lines.len() {
+        cx.r.violation(
+            "C13:file:unattributed-line",
+            &format!("{} lines cannot be attributed to an emitted event, first: {}", lines.len() - at, clip(&lines[at])),
+            json!({"seed": cx.seed, "section": cx.section, "first_idx": events.first().map(|e| e.0)}),
+        );
+    }
+    cx.r.observe("file:format-failed-metric-comparisons", 1);
+    if format_failed != dropped_compound + dropped_other {
+        cx.r.violation(
+            "C13:file:format-failed-metric",
+            &format!("event_format_failed = {} but {} accepted events have no line ({} with compound map keys)", format_failed, dropped_compound + dropped_other, dropped_compound),
+            json!({"seed": cx.seed, "section": cx.section, "first_idx": events.first().map(|e| e.0)}),
+        );
     }
 }
 
